@@ -730,6 +730,10 @@ def run_mo(ctx, cfg):
     with Patched(cma, rl):
         s = cma.StrategyMultiObjective(population, cfg["sigma"], mu=mu, lambda_=lam)
     ctx.add("CMoParams %s %s %s %s" % (cnat(dim), cnat(mu), cnat(lam), c_mparams(s)), dict(case0, what="params"))
+    st_init = mo_snapshot(s)
+    ctx.add("CMoInit %s %s %s %s %s" % (cnat(dim), c_mparams(s),
+                                     clist([cpair(cv(x), cv(w)) for x, w in zip(st_init["parents"], st_init["pfits"])]),
+                                     cfloat(cfg["sigma"]), c_mstate(st_init)), dict(case0, what="init"))
     if not (0.0 < s.cp < 1.0 and 0.0 < s.ptarg < 1.0 and 0.0 < s.ccov < 1.0 and s.d > 0):
         run.oracle_violation("MO: default parameters outside their ranges", case0)
     hv_log = []
